@@ -304,8 +304,67 @@ def rule_hash_covers_key(ctx, rep, config="c-lib"):
             rep.violation("R27-hash", key, "%s hashes %s without a loop: only a fixed part of the array enters the hash value, elements that agree there collide" % (hfn, what),
                           where=p.m.functions[hfn].where(), witness=[site.where()])
             continue
+        # the cached transition's key holds a set: the hash covers what makes the set (core and distances), or uses the pointer itself (sets are shared)
+        if hfn == "set_term_lookahead_hash":
+            g0 = p.m.functions[hfn]
+            by_ptr = any(i.op == "ptrtoint" and loaded_from(g0, i.ops[0]) is not None and loaded_from(g0, i.ops[0]).last_field() == "set_term_lookahead.set"
+                         for i in g0.all_insts())
+            miss2 = [k for k in ("set_core.sits", "set.dists") if k not in got]
+            if miss2 and not by_ptr:
+                rep.violation("R27-hash", key, "%s hashes the set of its key without %s: all transitions from sets that differ only there (in a left-recursive grammar the "
+                              "same core comes back with other distances at every element of a list) share one probe sequence -- the collisions per token grow with "
+                              "the input" % (hfn, ", ".join(miss2)), where=g0.where(), witness=[site.where()])
+                continue
         badl = None
+        same_el = None
         for (g, L) in _hash_loops(p, hfn):
+            # every element read inside the loop is read at an address that moves with the loop
+            hphis = set(i.id for i in g.bmap[L["header"]].insts if i.op == "phi")
+
+            def variant(op, depth=0):
+                o = strip_casts(g, op)
+                if o.get("k") != "i" or depth > 12:
+                    return False
+                if o["v"] in hphis:
+                    return True
+                i = g.insts.get(o["v"])
+                if i is None or i.block.name not in L["body"]:
+                    return False
+                if i.op == "getelementptr":
+                    return variant(i.d["base"], depth + 1) or any(isinstance(st.get(k_), dict) and variant(st[k_], depth + 1) for st in i.d["path"] for k_ in ("idx", "ptr"))
+                if i.op == "phi":
+                    return any(variant(v, depth + 1) for (v, _) in i.d["incoming"])
+                return any(variant(x, depth + 1) for x in (i.ops or []) if isinstance(x, dict))
+            for ph in g.bmap[L["header"]].insts:
+                if ph.op != "phi" or not ph.ty.startswith("i") or ph.ty in ("i1", "i8"):
+                    continue
+                steps = [v for (v, pb) in ph.d["incoming"] if pb in L["body"]]
+                # the accumulator: its next value is made from itself and from what is read
+                work, seen_, loads, selfdep = list(steps), set(), [], False
+                while work:
+                    o = strip_casts(g, work.pop())
+                    if o.get("k") != "i" or o["v"] in seen_:
+                        continue
+                    seen_.add(o["v"])
+                    if o["v"] == ph.id:
+                        selfdep = True
+                        continue
+                    i = g.insts.get(o["v"])
+                    if i is None or i.block.name not in L["body"]:
+                        continue
+                    if i.op == "load":
+                        loads.append(i)
+                        continue
+                    if i.op == "phi":
+                        work.extend(v for (v, _) in i.d["incoming"])
+                    elif i.is_call():
+                        work.extend(i.args)
+                    else:
+                        work.extend(x for x in (i.ops or []) if isinstance(x, dict))
+                if selfdep and loads:
+                    for l_ in loads:
+                        if not variant(l_.ops[0]):
+                            same_el = (g, l_)
             hdr = g.bmap[L["header"]]
             t = hdr.term
             c = g.inst(t.ops[0]) if (t is not None and len(t.ops) == 3) else None
@@ -323,7 +382,11 @@ def rule_hash_covers_key(ctx, rep, config="c-lib"):
             # counting up to a constant, or down from a constant: a fixed number of elements
             if (not down) or const_int(inits[0]) is not None:
                 badl = (g, c)
-        if badl:
+        if same_el:
+            rep.violation("R27-hash", key, "the loop of %s that hashes the key reads the same place on every round (%s does not move with the loop): one element enters the "
+                          "hash n times and the others never -- keys that agree there collide" % (same_el[0].name, same_el[1].where()),
+                          where=same_el[1].where(), witness=[same_el[1].where()])
+        elif badl:
             rep.violation("R27-hash", key, "the loop of %s that hashes the key stops at the constant %d: elements that agree on that prefix collide" % (
                 badl[0].name, const_int(badl[1].ops[1])), where=badl[1].where(), witness=[badl[1].where()])
         else:
@@ -507,6 +570,16 @@ def rule_growth(ctx, rep, config="c-lib", tag=""):
         rep.violation("R27-growth", tag + "expansion/geometric", "the expansion does not create a table for at least twice the number of elements (%s): with additive or no "
                       "growth n insertions cost n expansions of n elements each" % (("%d * elements + %d" % sz) if sz else "size argument not a multiple of the element count"),
                       where=cr[0].where(), witness=[cr[0].where()])
+    # the two fit together: right after an expansion the load 1/k is strictly below the threshold, so a number of insertions proportional to the size follows
+    # before the next expansion
+    if good and sz is not None and sz[0] >= 2:
+        k_, num, den = sz[0], good[1], good[2]
+        if den < k_ * num:
+            rep.ok("R27-growth", tag + "expansion/leaves-room", sample={"load_after_expansion": "1/%d" % k_, "threshold": "%d/%d" % (num, den)})
+        else:
+            rep.violation("R27-growth", tag + "expansion/leaves-room", "the table is expanded at a load of %d/%d and the expansion makes a table for %d * elements entries: the "
+                          "new table is at the threshold again at once, every insertion (or every second one) expands and rehashes the whole table -- n insertions "
+                          "cost n expansions" % (num, den, k_), where=good[0].where(), witness=[good[0].where(), cr[0].where()])
 
 
 def rule_growth_cxx(ctx, rep, config="cxx-lib"):
